@@ -36,7 +36,13 @@ func (f *Fam) genInit(r *rand.Rand) string {
 		pick(r, 10000000000000000, 100000000000000000, 1000000000000, 0, 1000000000000000000),
 		pick(r, 0, 1000, 10000, 10000))
 	fmt.Fprintf(&sb, " daoo=%s daot=%d aclo=%s", hx(Keys[r.Intn(3)].Addr), pick(r, 0, 1000, 50000000), hx(Keys[r.Intn(3)].Addr))
-	fmt.Fprintf(&sb, " stored=%d mods=%s,%s,%s,%s keys=", NKeys, poolAddr, feeAddr, posAddr, daoAddr)
+	// every third chain leaves the last two plain keys without a genesis account: their accounts come into being with
+	// the first coins they receive and never carry a public key (such a signer must bring its key with the transaction)
+	nStored := NKeys
+	if r.Intn(3) == 0 {
+		nStored = NKeys - 2
+	}
+	fmt.Fprintf(&sb, " stored=%d mods=%s,%s,%s,%s keys=", nStored, poolAddr, feeAddr, posAddr, daoAddr)
 	for i := 0; i < NAll; i++ {
 		if i > 0 {
 			sb.WriteByte(',')
@@ -59,6 +65,9 @@ func (f *Fam) genInit(r *rand.Rand) string {
 	}
 	perm := r.Perm(NKeys)
 	for i, ki := range perm {
+		if ki >= nStored {
+			continue
+		}
 		bal := pick(r, 0, 1, 999999, 1000000, 10000000, 100000000, 1000000000, int64(r.Intn(50000000)))
 		if ki == NKeys-1 && i >= nv && r.Intn(3) == 0 {
 			// a whale: can afford a stake whose consensus power does not fit an int64
